@@ -38,8 +38,8 @@ CHECKS = {
                       'An interval list of more than 150,000 entries is represented by its first entries plus a claimed '
                       'length (only len() sees it).',
         'scenarios': [
-            {'module': 'worlds.combiner.plan', 'quick': 1500, 'thorough': 12000, 'params': {'samples': 8, 'enum_cap': 260, 'fault_samples': 4, 'fault_enum_cap': 48}},
-            {'module': 'worlds.combiner.partition', 'quick': 5000, 'thorough': 60000},
+            {'module': 'worlds.combiner.plan', 'quick': 1500, 'thorough': 9000, 'params': {'samples': 8, 'enum_cap': 260, 'fault_samples': 4, 'fault_enum_cap': 48}},
+            {'module': 'worlds.combiner.partition', 'quick': 5000, 'thorough': 40000},
         ],
         'expected_probes': ['resume_via_load', 'resume_via_new_combiner', 'torn_save', 'multi_level_merge',
                             'vds_and_gvcf_mixed', 'stopped_after_step', 'torn_plan_restart_from_scratch',
